@@ -23,6 +23,7 @@ func checkC04(w *World, r *Result) {
 	checkStructValidator(w, r)
 	kindProvenance(w, r, "AGR-C02b", "generator/sql.codeForUnion", 1)
 	checkUnionEnumValidators(w, r)
+	runTPLBalance(w, r, "generator/sql", 2)
 	tplBalanceFor(w, r, allTemplateFuncs(w, "generator/sql"))
 	// termination of the naming function (shared with C18)
 	sub := &Result{}
